@@ -87,6 +87,7 @@ pub fn obs_tok(t: &Token) -> Tok {
 // ------------------------------------------------------------------------------------------
 // Error queue: one of the two shipped implementations, selected at run time
 
+#[derive(Clone)]
 pub enum QueueImpl {
     V(Vec<Error>),
     A1(ArrayVec<Error, 1>),
@@ -206,6 +207,19 @@ impl SimDevice {
             tst_code: 0,
             sim: SimState::default(),
         })
+    }
+    /// copy of the instrument state (registers + queue) with empty harness logs
+    pub fn clone_state(&self) -> SimDevice {
+        SimDevice {
+            esr: self.esr,
+            ese: self.ese,
+            sre: self.sre,
+            oper: self.oper,
+            ques: self.ques,
+            queue: self.queue.clone(),
+            tst_code: self.tst_code,
+            sim: SimState::default(),
+        }
     }
     pub fn reg(&mut self, r: Reg) -> &mut EventRegister {
         match r {
